@@ -15,6 +15,7 @@ OWNER = {
     "samples": "C06", "cost": "C06", "ret": "C06", "flatp": "C06",
     "accurate": "C01", "modeled": "C01",
     "sactive": "C07", "sargmax": "C07", "sdistinct": "C07", "data": "C07",
+    "pess": "C02+C11",
 }
 
 ABS_CFG = """CONSTANTS
@@ -67,7 +68,7 @@ K3 = ("W", [[1, 0], [0, 1], [1, 1]])
 
 
 def matrix(kind, tier, seed):
-    """list of configurations.  kind: 'elim' (C02/C03), 'run' (C06), 'sample' (C07)."""
+    """list of configurations.  kind: 'elim' (C02/C03), 'run' (C06), 'sample' (C07), 'pess' (C11)."""
     q = tier == "quick"
     M = []
     if kind in ("elim", "run"):
@@ -188,6 +189,14 @@ def matrix(kind, tier, seed):
             if k < 8:
                 M.append(_c("VOGP", "VVD2a", order=o, eps=e, batch=b, script=dict(kind="rect", G=4), max_steps=20))
                 M.append(_c("EpsilonPAL", "VVD2a", eps=e, batch=b, script=dict(kind="rect", G=4), max_steps=20))
+    if kind == "pess":
+        # C11, last sentence: the pessimistic Pareto sets of VOGP / EpsilonPAL on scripted lattice posteriors with twins (exact ties)
+        WI = {"orth": [[1, 0], [0, 1]], "acute": [[2, -1], [-1, 2]], "obtuse": [[2, 1], [1, 2]]}
+        for k in range(8 if q else 32):
+            o = ("Wint", WI[list(WI)[k % 3]])
+            e = (0.5, 1.0, 2.0, 0.25)[k % 4]
+            M.append(_c("VOGP", "VVD2a" if k % 2 else "VVD2b", order=o, eps=e, batch=1 + k % 3, script=dict(kind="rect", G=4, dup=(k % 4 != 3)), max_steps=25))
+            M.append(_c("EpsilonPAL", "VVD2a" if k % 2 else "VVD3a", eps=e, batch=1 + k % 2, script=dict(kind="rect", G=4 if k % 2 else 3, dup=(k % 4 != 3)), max_steps=25))
     rnd = random.Random(seed)
     out = []
     for k, c in enumerate(M):
@@ -196,6 +205,8 @@ def matrix(kind, tier, seed):
             c["script"]["wander"] = True      # every other scripted run: posterior means drift, regions need not contain a fixed truth
         if c.get("script") and k % 3 != 2:
             c["script"]["poison"] = True      # frame check: regions of discarded designs are overwritten after every step
+        if c.get("script") and k % 4 == 2:
+            c["script"]["dup"] = True         # a quarter of the designs are exact twins of others: ties, mutual relations
         c["tid"] = k + 1
         c.setdefault("noise", 0.01)
         c.setdefault("max_steps", 60)
@@ -360,6 +371,8 @@ def run_traces(ctx, kind, prop):
                 ctx.count("steps_with_new_pareto")
             if s.get("skipsets"):
                 ctx.count("steps_sets_not_judged_nonrobust")
+            if s.get("pess", {}).get("has"):
+                ctx.count("steps_pessimistic_set_judged")
             ctx.nontriv((T["alg"], pre["S"], pre["P"], pre["U"], s["rel"], s["req"]))
     for tid, l, failing, rec in rejects:
         T = byid[tid]
@@ -370,7 +383,7 @@ def run_traces(ctx, kind, prop):
                 owner = "C05" if AT.ALG_FAM[T["alg"]] == "vogp" else "C01"
                 if owner == prop:
                     continue        # reported by accuracy_runs of C01 / C05 with their own signatures
-            if owner != prop:
+            if prop not in owner.split("+"):
                 foreign[cl] = foreign.get(cl, 0) + 1
                 continue
             if cl == "nocrash":
